@@ -5,3 +5,5 @@ import LapyVerif.Audit.C06
 import LapyVerif.Audit.C13
 import LapyVerif.Audit.C09
 import LapyVerif.Audit.C05
+import LapyVerif.Audit.C12
+import LapyVerif.Audit.C07
